@@ -1,0 +1,28 @@
+//go:build verif
+
+// Contracts for the govc verifier (see /verif/DESIGN.md). Comment-only file.
+package app
+
+//@ ghost appDirtyMarks() int
+
+//@ # ASSUMED (lazy load through rlp/iavl): getOrNew returns the cached model, loading or creating it first; the stored
+//@ # validators' reward never exceeds the stored price-derived (safe) reward (state invariant established by SetReward)
+//@ func (*App).getOrNew
+//@   trusted
+//@   ensures result != nil && a.model == result && (old(a.model) != nil ==> result == old(a.model))
+//@   ensures 0 <= bigdec(bytestr(result.Reward0)) && bigdec(bytestr(result.Reward0)) <= bigdec(bytestr(result.RewardSafe))
+//@   modifies a.model
+
+//@ func field Model.markDirty
+//@   modifies appDirtyMarks
+
+//@ # after SetReward the stored pair is exactly (newRewards, safeReward) (C28: recovery steps and zeroing take effect)
+//@ func (*App).SetReward
+//@   serves C28
+//@   requires a != nil && newRewards != nil && safeReward != nil && 0 <= newRewards.val && newRewards.val <= safeReward.val
+//@   ensures stored: a.model != nil && bigdec(bytestr(a.model.Reward0)) == old(newRewards.val) && bigdec(bytestr(a.model.RewardSafe)) == old(safeReward.val)
+
+//@ func (*App).Reward
+//@   serves C28
+//@   requires a != nil
+//@   ensures values: result0 != nil && result1 != nil && a.model != nil && result0.val == bigdec(bytestr(a.model.Reward0)) && result1.val == bigdec(bytestr(a.model.RewardSafe))
